@@ -1134,9 +1134,96 @@ fn gen_truth(rng: &mut Rng, n: usize) -> Vec<bool> {
 
 // ------------------------------------------------------------------------------------------
 
+/// element whose ordering looks at `key` only: two elements can compare equal and still be told
+/// apart, so "which operand does min/max return on a tie" is observable
+#[derive(Clone, Copy, Debug)]
+struct Keyed {
+    key: i8,
+    tag: u16,
+}
+impl PartialEq for Keyed {
+    fn eq(&self, o: &Keyed) -> bool {
+        self.key == o.key
+    }
+}
+impl Eq for Keyed {}
+impl PartialOrd for Keyed {
+    fn partial_cmp(&self, o: &Keyed) -> Option<std::cmp::Ordering> {
+        Some(self.key.cmp(&o.key))
+    }
+}
+impl Ord for Keyed {
+    fn cmp(&self, o: &Keyed) -> std::cmp::Ordering {
+        self.key.cmp(&o.key)
+    }
+}
+
+macro_rules! ties_kind {
+    ($V:ident, $sub:expr, $cfg:expr, $idx:expr) => {{
+        let k = stringify!($V);
+        let n = <$V<Keyed> as VecX<Keyed>>::DIM;
+        let mut rng = Rng::for_case(&format!("ties_identity/{}", k), $cfg.case_seed(), $idx);
+        let a: Vec<Keyed> = (0..n).map(|i| Keyed { key: rng.range_i64(-2, 2) as i8, tag: i as u16 }).collect();
+        let b: Vec<Keyed> = (0..n).map(|i| Keyed { key: if rng.chance(1, 2) { a[i].key } else { rng.range_i64(-2, 2) as i8 }, tag: 1000 + i as u16 }).collect();
+        let sc = Keyed { key: a[rng.usize_below(n)].key, tag: 5000 };
+        let va = <$V<Keyed> as VecX<Keyed>>::from_fn(|i| a[i]);
+        let vb = <$V<Keyed> as VecX<Keyed>>::from_fn(|i| b[i]);
+        let tags = |v: &$V<Keyed>| -> Vec<u16> { (0..n).map(|i| v.at(i).tag).collect() };
+        let mut h = H64::new();
+        h.s(k);
+        for i in 0..n {
+            h.i(a[i].key as i128).i(b[i].key as i128);
+        }
+        let ties = (0..n).filter(|i| a[*i].key == b[*i].key).count();
+        let mut cases: Vec<(String, Result<Vec<u16>, String>, Vec<u16>)> = Vec::new();
+        cases.push((format!("{}::min", k), guarded(|| $V::<Keyed>::min(va, vb)).map(|v| tags(&v)), (0..n).map(|i| std::cmp::min(a[i], b[i]).tag).collect()));
+        cases.push((format!("{}::max", k), guarded(|| $V::<Keyed>::max(va, vb)).map(|v| tags(&v)), (0..n).map(|i| std::cmp::max(a[i], b[i]).tag).collect()));
+        cases.push((format!("{}::max", k), guarded(|| $V::<Keyed>::max(va, sc)).map(|v| tags(&v)), (0..n).map(|i| std::cmp::max(a[i], sc).tag).collect()));
+        cases.push((format!("{}::min", k), guarded(|| $V::<Keyed>::min(sc, vb)).map(|v| tags(&v)), (0..n).map(|i| std::cmp::min(sc, b[i]).tag).collect()));
+        cases.push((format!("{}::partial_min", k), guarded(|| $V::<Keyed>::partial_min(va, vb)).map(|v| tags(&v)), (0..n).map(|i| vek::ops::partial_min(a[i], b[i]).tag).collect()));
+        cases.push((format!("{}::partial_max", k), guarded(|| $V::<Keyed>::partial_max(va, vb)).map(|v| tags(&v)), (0..n).map(|i| vek::ops::partial_max(a[i], b[i]).tag).collect()));
+        for (ci, (api, got, want)) in cases.into_iter().enumerate() {
+            $sub.saw(&api);
+            match got {
+                Ok(g) if g == want => $sub.held(h.get() ^ ci as u64, ties > 0),
+                Ok(g) => {
+                    let v = violation(PROP, $sub, &api, "Keyed", "wrong_value", "tie_returns_other_operand", format!("{} on elements ordered by key only: a = {:?}, b = {:?} (scalar {:?}); result tags {:?}, the scalar operation per lane gives {:?}", api, a, b, sc, g, want), $cfg.case_seed(), $idx);
+                    $sub.violated(v);
+                }
+                Err(e) => {
+                    let v = violation(PROP, $sub, &api, "Keyed", "panic", "panic", format!("{} panicked: {}", api, e), $cfg.case_seed(), $idx);
+                    $sub.violated(v);
+                }
+            }
+        }
+    }};
+}
+
 fn main() {
     let cfg = Config::from_args(PROP);
     let mut rep = Report::new(cfg.clone());
+    {
+        let nt = cfg.n(300, 30_000);
+        let proto = Sub::new("ties_identity", "min / max (vector and broadcast-scalar operand) / partial_min / partial_max of the 13 kinds on elements whose ordering ignores a payload (keys in -2..2, half of the lanes tie): the payload returned in lane i must be the one std::cmp::min / std::cmp::max / vek::ops::partial_min / partial_max return for the lane's two operands; non-trivial = at least one tie; distinct by hash of the keys")
+            .with_floor(nt * 13)
+            .require(&["Vec2::max", "Vec64::max", "Rgba::min", "Uvw::partial_max", "Extent3::partial_min"]);
+        let s = run_cases(&cfg, proto, nt, |s, i| {
+            ties_kind!(Vec2, s, &cfg, i);
+            ties_kind!(Vec3, s, &cfg, i);
+            ties_kind!(Vec4, s, &cfg, i);
+            ties_kind!(Vec8, s, &cfg, i);
+            ties_kind!(Vec16, s, &cfg, i);
+            ties_kind!(Vec32, s, &cfg, i);
+            ties_kind!(Vec64, s, &cfg, i);
+            ties_kind!(Extent2, s, &cfg, i);
+            ties_kind!(Extent3, s, &cfg, i);
+            ties_kind!(Rgb, s, &cfg, i);
+            ties_kind!(Rgba, s, &cfg, i);
+            ties_kind!(Uv, s, &cfg, i);
+            ties_kind!(Uvw, s, &cfg, i);
+        });
+        rep.push(s);
+    }
 
     {
         let mut s = Sub::new(
